@@ -276,7 +276,14 @@ def main_check(prop_id, modname, argv):
 
     # 6 classify --------------------------------------------------------------------------------
     known = load_known()
-    os.makedirs(os.path.join(VERIF, 'evidence', 'replay'), exist_ok=True)
+    rdir = os.path.join(VERIF, 'evidence', 'replay')
+    os.makedirs(rdir, exist_ok=True)
+    for fn in os.listdir(rdir):            # replay files of earlier runs of this check are stale
+        if fn.startswith(prop_id + '_'):
+            try:
+                os.remove(os.path.join(rdir, fn))
+            except OSError:
+                pass
     lines = []
     n_viol = 0
     seen_known = set()
